@@ -104,8 +104,9 @@ fn spec(cfg: &Cfg) -> ObjSpec {
 }
 
 fn emit(cfg: &Cfg, desc: Box<ObjectDesc>) -> Result<Vec<Vec<u8>>, String> {
-    let mut s = session(cfg).sender()?;
-    s.add_object(0, desc).map_err(|e| format!("add_object: {}", e.0))?;
+    let sp = session(cfg);
+    let mut s = sp.sender()?;
+    add_tallied(&mut s, 0, desc, &sp.oti).map_err(|e| format!("add_object: {}", e.0))?;
     s.publish(t0()).map_err(|e| e.0.to_string())?;
     let mut pk = Vec::new();
     let polls: &[u64] = if cfg.carousel == 0 { &[0] } else { &[0, 2000, 4000] };
